@@ -187,6 +187,8 @@ func (dsc *dataStoreCommand) setKey(keyName, str string, options bitflags, expir
 				return
 			}
 			argBytes = append(strBytes, argBytes...)
+			// append modifies the value in place: the expiration stays
+			expiration = time.Time(oldSk.expiresAt)
 		}
 
 	} else {
